@@ -19,6 +19,7 @@ import (
 	"github.com/cosmos/cosmos-sdk/types/tx/signing"
 	"github.com/cosmos/cosmos-sdk/x/auth/migrations/legacytx"
 	authsigning "github.com/cosmos/cosmos-sdk/x/auth/signing"
+	"github.com/cosmos/cosmos-sdk/x/authz"
 	"github.com/gogo/protobuf/jsonpb"
 	"github.com/gogo/protobuf/proto"
 	"github.com/medibloc/panacea-core/v2/app"
@@ -281,7 +282,31 @@ func normEmpty(v reflect.Value) {
 // It returns (violation text, known-finding key, modes usable).
 func (e *c14env) checkPair(a, b sdk.Msg, st *pureStats) (string, *c14pair) {
 	for _, m := range []sdk.Msg{a, b} {
-		if safeValidate(m) == nil {
+		// stateless validation runs on the node BEFORE the signature is verified: it must not
+		// change what is signed
+		before := protoOf(m)
+		var sb0 []byte
+		if lm, ok := m.(legacytx.LegacyMsg); ok {
+			func() {
+				defer func() { _ = recover() }()
+				sb0 = lm.GetSignBytes()
+			}()
+		}
+		valid := safeValidate(m) == nil
+		if !bytes.Equal(before, protoOf(m)) {
+			return fmt.Sprintf("ValidateBasic of %s modifies the message it validates (the node verifies signatures over the modified message)", sdk.MsgTypeURL(m)), &c14pair{MsgJSONPair{sdk.MsgTypeURL(m), base64.StdEncoding.EncodeToString(before)}, pairJSON(m), "amino-json"}
+		}
+		if lm, ok := m.(legacytx.LegacyMsg); ok && sb0 != nil {
+			var sb1 []byte
+			func() {
+				defer func() { _ = recover() }()
+				sb1 = lm.GetSignBytes()
+			}()
+			if sb1 != nil && !bytes.Equal(sb0, sb1) {
+				return fmt.Sprintf("the sign bytes of %s differ before and after ValidateBasic", sdk.MsgTypeURL(m)), &c14pair{pairJSON(m), pairJSON(m), "amino-json"}
+			}
+		}
+		if valid {
 			if why := aminoRoundTrip(m); why != "" {
 				return why, &c14pair{pairJSON(m), pairJSON(m), "amino-json"}
 			}
@@ -368,14 +393,22 @@ func c14Doc(t *rapid.T, did string) *didtypes.DIDDocument {
 // optional fields empty most of the time.
 func genValidMsg(t *rapid.T, ti int) sdk.Msg {
 	accts := simnet.DefaultAccounts(3)
-	addr := func(l string) string { return accts[rapid.IntRange(0, 2).Draw(t, l)].Bech }
+	addr := func(l string) string {
+		a := accts[rapid.IntRange(0, 2).Draw(t, l)].Bech
+		if rapid.IntRange(0, 11).Draw(t, l+"-upper") == 0 {
+			return strings.ToUpper(a) // a legal spelling of the same address
+		}
+		return a
+	}
 	str := func(l string) string {
 		// free-text fields are not checked for UTF-8 by stateless validation
 		return rapid.SampledFrom([]string{"", "", "", "a", "a", "ab", "b", "a\xffb", "a\xfeb"}).Draw(t, l)
 	}
 	req := func(l string) string { return rapid.SampledFrom([]string{"a", "ab", "b", "ba"}).Draw(t, l) }
 	byt := func(l string) []byte {
-		return rapid.SampledFrom([][]byte{nil, nil, []byte("a"), []byte("ab")}).Draw(t, l)
+		// lengths next to powers of two and to the documented limits (key 70, value 5000)
+		return rapid.SampledFrom([][]byte{nil, nil, []byte("a"), []byte("ab"), []byte("a"), bytes.Repeat([]byte("v"), 32), bytes.Repeat([]byte("v"), 70),
+			bytes.Repeat([]byte("v"), 1024), bytes.Repeat([]byte("v"), 1025), bytes.Repeat([]byte("v"), 5000)}).Draw(t, l)
 	}
 	dids := []string{world.DIDKeys()[0].DID(), world.DIDKeys()[1].DID()}
 	did := rapid.SampledFrom(dids).Draw(t, "did")
@@ -788,6 +821,25 @@ func (e *c14env) checkLists(a, b, c sdk.Msg, st *pureStats) (string, *c14pair) {
 			}
 			st.label("2-message tx pair checked ("+md.name+")", 1)
 		}
+	}
+	// the same pair as the inner message of an authz MsgExec (signed by the grantee): the
+	// wrapping transaction must distinguish them too
+	for _, md := range c14Modes {
+		ea, eb := authz.NewMsgExec(e.acct.Addr, []sdk.Msg{a}), authz.NewMsgExec(e.acct.Addr, []sdk.Msg{b})
+		sa, erra := e.signBytesN(e.txc, md.mode, []sdk.Msg{&ea})
+		sb, errb := e.signBytesN(e.txc, md.mode, []sdk.Msg{&eb})
+		if erra != nil || errb != nil {
+			st.label("mode unusable for the wrapped message ("+md.name+")", 1)
+			continue
+		}
+		if bytes.Equal(sa, sb) {
+			if k := knownCollision(md.name, a, b); k != "" {
+				st.label("excluded: "+k, 1)
+				continue
+			}
+			return fmt.Sprintf("mode %s: two authz MsgExec transactions whose inner messages differ (%s vs %s) share their sign bytes %q", md.name, sdk.MsgTypeURL(a), sdk.MsgTypeURL(b), trunc(sa, 300)), &c14pair{pairJSON(a), pairJSON(b), md.name + "/exec"}
+		}
+		st.label("exec-wrapped pair checked ("+md.name+")", 1)
 	}
 	// bytes returned by a message's own GetSignBytes stay what they were
 	type legacy interface{ GetSignBytes() []byte }
